@@ -217,6 +217,7 @@ static int streamDispatch(MPT_INTERFACE(input) *in, MPT_TYPE(event_handler) cmd,
 				return MPT_EVENTFLAG(None);
 			}
 		}
+		len = srm->data._rd._state.data.msg;
 	}
 	if (cmd) {
 		struct streamWrap sw;
